@@ -1,4 +1,4 @@
-import vf, trees
+import vf, trees, importlib
 
 def build(tier):
     quick = tier == "quick"
@@ -10,4 +10,10 @@ def build(tier):
             for ae in (False, True):
                 obs.append(trees.tree_ob("C15", sk, "tree", dict(base, recursive=rec, auto_ex=ae), timeout=400 if quick else 2400))
     obs.append(trees.tree_ob("C15 stdout", "S1", "stdout", dict(base, recursive=False, auto_ex=False), timeout=400 if quick else 2400))
+    # C15.b 'regardless of which source supplied the pattern': the matcher is built from the union of the patterns of all sources
+    C16 = importlib.import_module('C16')
+    for extra in ((), ('-r',)):
+        o = C16.ob('input', 'exclude_filters', 'excl', 2, 300 if quick else 1800, extra=extra)
+        o.name = o.name.replace('C16 excl', 'C15.b pattern sources (union)')
+        obs.append(o)
     return dict(obligations=obs, explanation="x", assumptions=[])
